@@ -514,12 +514,19 @@ def _install(T):
         nf = V.to_float(n)
         return Arr.build(n, lambda m: V.Cx.of(I.dom.dtft(seq, n, -m, n)) / nf, "complex")
 
+    def lazy_ite(c, fa, zero):
+        if c is False:
+            return zero
+        if c is True:
+            return fa()
+        return V.s_ite(c, fa(), zero)
+
     def padded(a, n):
         s = a.snap()
         ln = a.n
         lim = V.s_min(ln, n)
         zero = V.cast_to(0, "complex") if a.dtype == "complex" else Fraction(0)
-        return lambda j: V.s_ite(V.b_and(V.s_cmp(">=", j, 0), V.s_cmp("<", j, lim)), s(j), zero)
+        return lambda j: lazy_ite(V.b_and(V.s_cmp(">=", j, 0), V.s_cmp("<", j, lim)), lambda: s(j), zero)
 
     def fft_common(I, a, n, axis, half):
         if isinstance(a, (list, tuple)):
@@ -549,7 +556,7 @@ def _install(T):
                 nf = V.to_float(n)
                 out_n = V.s_floordiv(n, 2) + 1 if half else n
                 def el(k, c):
-                    seq = lambda j: V.s_ite(V.b_and(V.s_cmp(">=", j, 0), V.s_cmp("<", j, lim)), s(j, c), zero)
+                    seq = lambda j: lazy_ite(V.b_and(V.s_cmp(">=", j, 0), V.s_cmp("<", j, lim)), lambda: s(j, c), zero)
                     return V.Cx.of(d.dtft(seq, n, k, n))
                 return Arr2.build(out_n, a.c, el, "complex")
             ln = a.c
@@ -560,7 +567,7 @@ def _install(T):
             nf = V.to_float(n)
             out_n = V.s_floordiv(n, 2) + 1 if half else n
             def el2(r, k):
-                seq = lambda j: V.s_ite(V.b_and(V.s_cmp(">=", j, 0), V.s_cmp("<", j, lim)), s(r, j), zero)
+                seq = lambda j: lazy_ite(V.b_and(V.s_cmp(">=", j, 0), V.s_cmp("<", j, lim)), lambda: s(r, j), zero)
                 return V.Cx.of(d.dtft(seq, n, k, n))
             return Arr2.build(a.r, out_n, el2, "complex")
         raise Unsupported("fft operand")
@@ -609,11 +616,38 @@ def _install(T):
         dt = V.promote(c.dtype, rr.dtype)
         return Arr2.build(c.n, rr.n, lambda i, j: V.s_ite(V.s_cmp(">=", i, j), V.cast_to(sc(i - j), dt), V.cast_to(sr(j - i), dt)), dt)
 
+    def lib_window(name):
+        def f(I, N, *params, **kw):
+            d = I.dom
+            n = I.as_index(N)
+            if hasattr(d, "const_array"):
+                return d.const_array(n)
+            keys = d.key_terms([n] + list(params) + [kw[k] for k in sorted(kw)])
+            a = d.opaque_array("npwin_" + name, keys, n, "float")
+            return a
+        return f
+    for nm in ("hanning", "hamming", "bartlett", "kaiser", "blackman"):
+        T.table["numpy." + nm] = lib_window(nm)
+        T.doc["numpy." + nm] = "numpy.%s(N[, beta]): real window of length N (closed form assumed, see C20)" % nm
+    T.table["scipy.signal.windows.chebwin"] = lib_window("chebwin")
+    T.table["scipy.signal.chebwin"] = lib_window("chebwin")
+    T.doc["scipy.signal.windows.chebwin"] = "chebwin(N, at): real window of length N (assumed)"
+
+    @reg("scipy.linalg.lstsq", "numpy.linalg.lstsq",
+         doc="lstsq(A, b) -> (x, residues, rank, sv): len(x) = cols(A), A^H (A x - b) = 0 (A-LSQ)")
+    def sp_lstsq(I, A, b, **kw):
+        d = I.dom
+        if hasattr(d, "lib_lstsq"):
+            return d.lib_lstsq(I, A, b)
+        raise Unsupported("lstsq in this domain")
+
     @reg("numpy.linalg.svd",
          doc="svd(A) -> (U, S, Vh): deterministic function of the matrix; S has min(rows, cols) entries, non-increasing "
              ">= 0; Vh is cols x cols, row i = conjugate of the i-th right singular vector (A-SVD)")
     def np_svd(I, A, full_matrices=True, **kw):
         d = I.dom
+        if hasattr(d, "lib_svd"):
+            return d.lib_svd(I, A)
         ident = d.ext_identity(A)
         keys = d.key_terms([ident])
         k = V.s_min(A.r, A.c)
